@@ -74,6 +74,7 @@ def generate():
     seen = set()
     chain_minlen = False
     sk_len = False
+    require_sk = False
     nonce_bounds = []
     for qn, fn in functions(tree):
         ordinal = 0
@@ -107,6 +108,12 @@ def generate():
                     t = ast.unparse(node.test)
                     if '%' in t and t.count('len(') >= 2 and 'block_size' in t:
                         sk_len = True
+        if qn == 'Message.parse':
+            for node in ast.walk(fn):
+                if isinstance(node, ast.If) and raises(node.body, 'InvalidSyntax'):
+                    t = ast.unparse(node.test)
+                    if 'crypto is not None' in t and 'IKE_SA_INIT' in t:
+                        require_sk = True
         if qn == 'PayloadNONCE.__init__':
             for node in ast.walk(fn):
                 if isinstance(node, ast.Compare):
@@ -144,6 +151,7 @@ def generate():
     lines.append('')
     lines.append('def chain_minlen_check : Bool := %s' % lean_bool(chain_minlen))
     lines.append('def sk_len_check : Bool := %s' % lean_bool(sk_len))
+    lines.append('def require_sk : Bool := %s' % lean_bool(require_sk))
     lines.append('def nonce_bounds : List Nat := %s' % lean_list(str(x) for x in nonce_bounds))
     lines.append('def type2payload : List (Nat × String) := %s'
                  % lean_list('(%d, %s)' % (n, lean_str(c)) for n, c in t2p))
@@ -153,6 +161,6 @@ def generate():
                  % lean_list('(%s, %s)' % (lean_str(q), lean_list('(%s, %d)' % (lean_str(m), v) for m, v in ms))
                              for q, ms in sorted(enums.items())))
     lines += ['', 'end PyIkev2.Gen.Codec', '']
-    facts = {'guards': guards, 'fmts': fmts, 'chain_minlen_check': chain_minlen, 'sk_len_check': sk_len,
+    facts = {'guards': guards, 'fmts': fmts, 'chain_minlen_check': chain_minlen, 'sk_len_check': sk_len, 'require_sk': require_sk,
              'type2payload': t2p, 'nonce_bounds': nonce_bounds}
     return 'Codec', '\n'.join(lines), facts, problems
